@@ -11,6 +11,8 @@ package main
 
 import (
 	"context"
+	"crypto/rand"
+	"crypto/rsa"
 	"encoding/base64"
 	"fmt"
 	"net/http"
@@ -286,7 +288,7 @@ func init() {
 		azValidatorReload(c)
 		azE2E(c)
 		azDeployments(c)
-		c.close([]string{"az:behind-proxy", "az:refused-while-deletes-fail", "az:refreshed-elsewhere", "az:refresh-grows-and-fails", "va:reload-under-traffic", "iv:true", "iv:false", "va:true", "va:false", "va:reload", "va:emptied-file", "gr:true", "gr:false", "ao:true", "ao:false", "ao:nil-session",
+		c.close([]string{"az:bearer-under-email-rules", "az:behind-proxy", "az:refused-while-deletes-fail", "az:refreshed-elsewhere", "az:refresh-grows-and-fails", "va:reload-under-traffic", "iv:true", "iv:false", "va:true", "va:false", "va:reload", "va:emptied-file", "gr:true", "gr:false", "ao:true", "ao:false", "ao:nil-session",
 			"ao:domain-check-pass", "ao:domain-check-fail", "login:session", "login:forbidden", "gate:ok", "gate:denied", "gate:login", "gate:bypass",
 			"history:file-rewrite-denied", "history:second-proxy-denied", "history:second-proxy-ok", "authonly:202", "authonly:403", "authonly:401",
 			"htpasswd:exempt-served", "htpasswd:groups-denied", "monitor:served-allowed", "monitor:refused-cleared"})
@@ -1078,6 +1080,57 @@ func azDeployments(c *suiteCtx) {
 		e.close()
 	} else {
 		c.violation("HARNESS", "env: "+err.Error(), nil)
+	}
+	// bearer tokens (--skip-jwt-bearer-tokens) under an e-mail restriction: a token that LACKS the configured e-mail claim, or whose
+	// other claims merely spell an allowed address, is judged like any identity — an identity without an allowed e-mail is refused
+	// (only htpasswd sessions are exempt from the e-mail rules)
+	{
+		x := newFakeIDP("unused")
+		if k, kerr := rsa.GenerateKey(rand.Reader, 2048); kerr == nil {
+			x.ownKey = k
+		}
+		for _, variant := range []string{"custom-claim-missing", "extra-issuer-username-lookalike", "main-issuer-username-lookalike"} {
+			cfg := proxyCfg{SkipJwtBearer: true, EmailDomains: []string{"example.com"}, InjectRequest: defaultInject(), ExtraJwtIssuers: []string{x.url() + "=extra-aud"}}
+			if variant == "custom-claim-missing" {
+				cfg.EmailClaim = "upn"
+			}
+			e, err := newEnv(c, cfg)
+			if err != nil {
+				c.violation("HARNESS", "env (bearer under e-mail rules): "+err.Error(), nil)
+				continue
+			}
+			issuer := e.idp
+			over := map[string]interface{}{"email": nil, "email_verified": nil, "preferred_username": "ceo@example.com"}
+			if variant == "extra-issuer-username-lookalike" {
+				issuer = x
+				over["aud"] = "extra-aud"
+			}
+			if variant == "custom-claim-missing" {
+				over = map[string]interface{}{"upn": nil} // (the standard `email` stays in the token: it is not the configured claim)
+			}
+			who := idpUser{Sub: "contractor-4711", Email: "someone@elsewhere.org", EmailVerified: true, PreferredUser: "ceo@example.com", Groups: []interface{}{"dev"}}
+			issuer.mu.Lock()
+			issuer.claimOverride = over
+			issuer.mu.Unlock()
+			tok := issuer.idToken(who, "")
+			issuer.mu.Lock()
+			issuer.claimOverride = nil
+			issuer.mu.Unlock()
+			for _, target := range []string{"/app/x", "/oauth2/auth", "/oauth2/auth?allowed_emails=ceo@example.com", "/oauth2/userinfo"} {
+				v := e.do(reqSpec{Target: target, Header: http.Header{"Authorization": {"Bearer " + tok}}})
+				c.casen("az|bearer-under-email-rules|"+variant+"|"+target, fmt.Sprint(v.Status))
+				c.count("az:bearer-under-email-rules")
+				if len(v.Hits) > 0 || v.Status == 200 || v.Status == 202 {
+					c.violation("C08", "a bearer token whose identity has no allowed e-mail was served under an e-mail-domain restriction ("+variant+"): "+
+						map[string]string{"custom-claim-missing": "it lacks the configured e-mail claim, its session carries no e-mail and was exempted like an htpasswd session",
+							"extra-issuer-username-lookalike": "it has no e-mail; its self-chosen preferred_username spells an allowed address and was judged in its place",
+							"main-issuer-username-lookalike":  "it has no e-mail; its self-chosen preferred_username spells an allowed address and was judged in its place"}[variant],
+						map[string]interface{}{"variant": variant, "target": target, "status": v.Status, "email_domains": []string{"example.com"}, "token_sub": who.Sub, "token_preferred_username": who.PreferredUser})
+				}
+			}
+			e.close()
+		}
+		x.close()
 	}
 	// several instances (server-side store): while this request waited for the refresh lock ANOTHER instance refreshed the session,
 	// and the refresh changed who the user is (groups, address).  The request goes on with the session it re-read — all of it:
